@@ -307,6 +307,189 @@ def encode_paxos(c, obs):
     return term((c["n"], steps))
 
 
+# --------------------------------------------------------------------------- distributed lock
+def lk(i):
+    return f"L{i}"
+
+
+def cl(i):
+    return f"c{i}"
+
+
+def gen_lock(rng):
+    nl, nc = rng.randint(1, 3), rng.randint(2, 4)
+    ops = []
+    t = 0
+    for _ in range(rng.randint(3, 40)):
+        t += rng.choice([0, 1, 1, 2, 5, 20])
+        k = rng.random()
+        L, C = rng.randrange(nl), rng.randrange(nc)
+        if k < 0.35:
+            ops.append([t, "acq", L, C])
+        elif k < 0.45:
+            ops.append([t, "evacq", L, C])
+        elif k < 0.6:
+            ops.append([t, "try", L, C])
+        elif k < 0.85:
+            ops.append([t, "rel", L, "cur" if rng.random() < 0.7 else rng.randint(0, 8)])
+        else:
+            ops.append([t, "evrel", L, "cur" if rng.random() < 0.7 else rng.randint(0, 8)])
+    return dict(maxw=rng.choice([0, 0, 1, 2]), lease_ms=rng.choice([3, 10, 30, 100000]), ops=ops,
+                schedule_expiry=rng.random() < 0.8)
+
+
+def run_lock(c):
+    from happysimulator.components.consensus.distributed_lock import DistributedLock
+    from happysimulator.core.event import Event
+    from happysimulator.core.simulation import Simulation
+    from happysimulator.core.temporal import Instant
+
+    trace = []
+
+    def g2l(g):
+        return None if g is None else [int(g.lock_name[1:]), g.fencing_token, int(g.holder[1:])]
+
+    class RecLock(DistributedLock):
+        def __init__(self, *a, **k):
+            super().__init__(*a, **k)
+            self.futs = []
+
+        def snap(self):
+            fid = {id(f): i for i, f in enumerate(self.futs)}
+            st = self.stats
+            return dict(nt=self._next_token,
+                        locks=[[int(n[1:]), None if s.holder is None else int(s.holder[1:]), s.fencing_token,
+                                [[int(r[1:]), fid[id(f)]] for r, f in s.waiters]] for n, s in self._locks.items()],
+                        resolved=[[i, g2l(f.value)] for i, f in enumerate(self.futs) if f.is_resolved],
+                        ctr=[st.total_acquires, st.total_releases, st.total_expirations, st.total_rejections],
+                        active=st.active_locks, tw=st.total_waiters)
+
+        def acquire(self, lock_name, requester):
+            f = super().acquire(lock_name, requester)
+            self.futs.append(f)
+            trace.append(dict(op=["acq", int(lock_name[1:]), int(requester[1:])], res=["fut", len(self.futs) - 1], st=self.snap()))
+            return f
+
+        def try_acquire(self, lock_name, requester):
+            g = super().try_acquire(lock_name, requester)
+            trace.append(dict(op=["try", int(lock_name[1:]), int(requester[1:])], res=["grant", g2l(g)], st=self.snap()))
+            return g
+
+        def release(self, lock_name, fencing_token):
+            b = super().release(lock_name, fencing_token)
+            trace.append(dict(op=["rel", int(lock_name[1:]), fencing_token], res=["bool", b], st=self.snap()))
+            return b
+
+        def _handle_lease_expiry(self, event):
+            md = event.context.get("metadata", {})
+            r = super()._handle_lease_expiry(event)
+            trace.append(dict(op=["exp", int(md["lock_name"][1:]), md["fencing_token"]], res=["none"], st=self.snap()))
+            return r
+
+    lock = RecLock("lock", lease_duration=c["lease_ms"] / 1000.0, max_waiters=c["maxw"])
+    sim = Simulation(end_time=Instant.from_seconds(500.0), entities=[lock])
+    scheduled = set()
+
+    def pending():
+        ev = getattr(lock, "_pending_expiry", None)
+        if c["schedule_expiry"] and ev is not None and id(ev) not in scheduled:
+            scheduled.add(id(ev))
+            return [ev]
+        return []
+
+    def mk(op):
+        def fn(event):
+            _, kind, L, x = op
+            out = []
+            if kind == "acq":
+                lock.acquire(lk(L), cl(x))
+            elif kind == "try":
+                lock.try_acquire(lk(L), cl(x))
+            elif kind in ("rel", "evrel"):
+                tok = x
+                if x == "cur":
+                    tok = lock._locks[lk(L)].fencing_token if lk(L) in lock._locks else 0
+                if kind == "rel":
+                    lock.release(lk(L), tok)
+                else:
+                    out.append(Event(time=lock.now, event_type="LockReleaseRequest", target=lock,
+                                     context={"metadata": {"lock_name": lk(L), "fencing_token": tok}}))
+            elif kind == "evacq":
+                out.append(Event(time=lock.now, event_type="LockAcquireRequest", target=lock,
+                                 context={"metadata": {"lock_name": lk(L), "requester": cl(x)}}))
+            return out + pending()
+        return fn
+
+    for k, op in enumerate(c["ops"]):
+        sim.schedule(Event.once(time=Instant.from_seconds(op[0] / 1000.0), event_type=f"op{k}", fn=mk(op)))
+    # expiry events created by waiter grants inside release/expiry are picked up by a poller
+    def poll(event):
+        return pending()
+    for k in range(0, (c["ops"][-1][0] if c["ops"] else 0) + 50):
+        sim.schedule(Event.once(time=Instant.from_seconds((k + 0.5) / 1000.0), event_type="poll", fn=poll))
+    from hsverif.util import run_bounded
+    _, verdict = run_bounded(sim, wall_s=20.0)
+    return dict(trace=trace, verdict=verdict)
+
+
+def oracle_lock(c, obs):
+    if obs["verdict"] != "ok":
+        return [dict(clause="run ends", verdict=obs["verdict"])]
+    out = []
+    seen_tokens = {}          # token -> (lock, holder)
+    order = []                # tokens in order of first appearance
+    last_nt = 1
+    for k, s in enumerate(obs["trace"]):
+        grants = []
+        if s["res"][0] == "grant" and s["res"][1] is not None:
+            grants.append(s["res"][1])
+        grants += [g for _, g in s["st"]["resolved"] if g is not None]
+        grants += [[L, t, h] for L, h, t, _ in s["st"]["locks"] if h is not None]
+        for L, t, h in grants:
+            if t in seen_tokens:
+                if seen_tokens[t] != (L, h):
+                    out.append(dict(clause="a fencing token identifies one grant", step=k, token=t, a=seen_tokens[t], b=[L, h]))
+            else:
+                if order and t <= order[-1]:
+                    out.append(dict(clause="fencing tokens strictly increase across grants", step=k, token=t, previous=order[-1]))
+                seen_tokens[t] = (L, h)
+                order.append(t)
+        if s["st"]["nt"] < last_nt:
+            out.append(dict(clause="fencing tokens strictly increase across grants", step=k, what="_next_token decreased"))
+        last_nt = s["st"]["nt"]
+        # the current holder of a lock holds the newest token granted for that lock
+        for L, h, t, ws in s["st"]["locks"]:
+            if h is not None:
+                newer = [x for x in order if x > t and seen_tokens[x][0] == L]
+                if newer:
+                    out.append(dict(clause="holder's token is the newest token of its lock", step=k, lock=L, token=t, newer=newer))
+            if h is not None and any(r == h for r, _ in ws) and False:
+                pass
+    seen, res = set(), []
+    for f in out:
+        if f["clause"] not in seen:
+            seen.add(f["clause"])
+            res.append(f)
+    return res
+
+
+def encode_lock(c, obs):
+    def g(x):
+        return None if x is None else SomeV((x[0], x[1], x[2]))
+    steps = []
+    for s in obs["trace"]:
+        o = s["op"]
+        op = Ctor({"acq": "LAcquire", "try": "LTry", "rel": "LRelease", "exp": "LExpire"}[o[0]], o[1], o[2])
+        r = s["res"]
+        res = (Ctor("RFuture", r[1]) if r[0] == "fut" else Ctor("RGrant", g(r[1])) if r[0] == "grant"
+               else Ctor("RBool", bool(r[1])) if r[0] == "bool" else Ctor("RNone"))
+        st = s["st"]
+        ob = (st["nt"], [(L, (None if h is None else SomeV(h), t, [(a, b) for a, b in ws])) for L, h, t, ws in st["locks"]],
+              [(f, g(x)) for f, x in st["resolved"]], tuple(st["ctr"]))
+        steps.append((op, res, ob))
+    return term((c["maxw"], steps))
+
+
 # --------------------------------------------------------------------------- families
 def describe_paxos(c):
     return f"paxos n={c['n']} {c.get('mode', 'corpus')} props={len(c['proposals'])}"
@@ -324,9 +507,13 @@ def attribute_paxos(c, o, f):
 FAMILIES = [
     Family("paxos", IMPORTS, "ok_paxos", "Z * list rec_step", gen_paxos, run_paxos, encode_paxos, oracle_paxos,
            nontrivial_paxos, attribute_paxos, parallel=True, describe=describe_paxos),
+    Family("lock", "From HS Require Import Base.Prelude C12.Model C12.LockModel.", "ok_lock", "Z * list (lop * lres * lobs)",
+           gen_lock, run_lock, encode_lock, oracle_lock,
+           lambda c, o: any(s["st"]["tw"] > 0 for s in o["trace"]), parallel=True,
+           describe=lambda c: f"lock maxw={c['maxw']} lease={c['lease_ms']}"),
 ]
 
-COQ_FILES = ["C12/Model.v", "C12/PaxosNode.v", "C12/Props.v"]
+COQ_FILES = ["C12/Model.v", "C12/PaxosNode.v", "C12/PaxosSys.v", "C12/LockModel.v", "C12/Lock.v", "C12/Props.v"]
 
 TRUSTED = [
     "Coq 8.16.1 kernel (coqc, vm_compute for case evaluation); no native_compute; no axioms",
@@ -340,7 +527,9 @@ TRUSTED = [
 def run(ctx):
     ctx.prove(COQ_FILES, allowed_axioms=(), trusted_base=TRUSTED)
     stats = []
-    stats.append(run_family(ctx, FAMILIES[0], ctx.n(250, 6000)))
+    fams = {f.name: f for f in FAMILIES}
+    stats.append(run_family(ctx, fams["paxos"], ctx.n(250, 6000)))
+    stats.append(run_family(ctx, fams["lock"], ctx.n(100, 1500)))
     merge_stats(ctx, stats, "random schedules (per-message delays, loss, partitions, retry jitter) over 3-5 nodes and 1-4 proposals; "
                 "non-trivial = competing ballots (a nack/retry occurred or more than one proposal); distinct by JSON of the input")
     ctx.finish_obligations()
